@@ -191,8 +191,23 @@ fn run() {
     }
     r.flag("exhaustive", true);
     let (cap_exec, cap_wall) = if thorough { (20_000_000, 1200) } else { (2_000_000, 120) };
+    let budget = sched::Budget::new(if thorough { 2400 } else { 240 }, cap_wall);
+    let mut left: usize = drivers.iter().map(|d| d.1.len()).sum();
     for (d, bounds) in drivers {
-        if !explore_driver(d, &bounds, cap_exec, cap_wall, &mut r) {
+        let mut ok = true;
+        for b in &bounds {
+            let share = budget.share(left);
+            left -= 1;
+            ok = explore_driver(d, &[*b], cap_exec, share, &mut r);
+            if !ok {
+                break;
+            }
+            // a bound that hit its cap ends this driver
+            if r.has_note_for(&d.name()) {
+                break;
+            }
+        }
+        if !ok {
             break;
         }
     }
